@@ -6,7 +6,8 @@ import json, os, shutil, subprocess, sys, glob, datetime
 HERE = os.path.dirname(os.path.dirname(os.path.abspath(__file__)))
 
 prop, base, others = sys.argv[1], sys.argv[2], sys.argv[3:]
-src = "/tmp/seed_%s_out" % prop
+src = os.environ.get("SEED_SRC") or "/tmp/seed_%s_out" % prop
+tag = os.environ.get("SEED_TAG", "m")      # wave 1: <Cxx>-m<i>; wave 2 (SEED_TAG=w): <Cxx>-w<i>
 for d in sorted(glob.glob(src + "/m*")):
     i = os.path.basename(d)
     if os.environ.get("SEED_ONLY") and i not in os.environ["SEED_ONLY"].split(","):
@@ -20,7 +21,7 @@ for d in sorted(glob.glob(src + "/m*")):
                 res = json.loads(l)
             except Exception:
                 pass
-    dst = "/verif/seeded/%s-%s" % (prop, i)
+    dst = "/verif/seeded/%s-%s%s" % (prop, tag, i[1:])
     os.makedirs(dst, exist_ok=True)
     for f in ("patch.diff", "demo.cpp", "demo.sh"):
         if os.path.exists(os.path.join(d, f)):
@@ -40,7 +41,7 @@ for d in sorted(glob.glob(src + "/m*")):
     meta.setdefault("written_against", meta.get("base_commit", base))
     meta["base_commit"] = used
     meta["confirmed_by_integrator"] = "patch applied to a scratch worktree at %s; `tools/try_seed.py seeded/%s-%s %s %s` on %s" % (
-        used, prop, i, used, " ".join([prop] + others), datetime.datetime.utcnow().strftime("%Y-%m-%d %H:%M UTC"))
+        used, prop, tag + i[1:], used, " ".join([prop] + others), datetime.datetime.utcnow().strftime("%Y-%m-%d %H:%M UTC"))
     meta["detected_by"] = det
     meta["detection"] = {p: v.get("lines", [])[:4] for p, v in res.items()}
     # first concrete replay lines, for the record
@@ -48,4 +49,4 @@ for d in sorted(glob.glob(src + "/m*")):
     meta["example_replay_lines"] = ex[:3]
     json.dump(meta, open(os.path.join(dst, "meta.json"), "w"), indent=1)
     concrete = any("no-failing-input-found" not in x for v in res.values() for x in v.get("lines", []) if x.startswith("VIOLATION"))
-    print("%s-%s: detected_by=%s concrete_replay=%s | %s" % (prop, i, det, concrete, (meta.get("summary") or "")[:110]))
+    print("%s-%s: detected_by=%s concrete_replay=%s | %s" % (prop, tag + i[1:], det, concrete, (meta.get("summary") or "")[:110]))
